@@ -47,6 +47,9 @@ func jsonPointerOK(part string) bool {
 }
 
 func RenderJSONPointer(p []string) string {
+	if len(p) == 1 && p[0] == "" {
+		return `""` // the member with the empty name: the grammar's segments are non-empty, the zero-segment pointer stands for it
+	}
 	var sb strings.Builder
 	sb.WriteByte('"')
 	for _, x := range p {
